@@ -12,7 +12,10 @@ ID = 'C01'
 RULE = ('reader level: files of 0..4 records per format (BED, two-line FASTA, FASTQ, wrapped FASTA) x final newline yes/no x '
         'LF/CRLF x EVERY min_chunk_size 1..size+2 x {seek (plain file), prepend (gzip) mode}: exact bytes of every delivered '
         'buffer compared with the Coq reader model; end to end: bnp.open(path).read_chunks(k) vs .read() on real plain/.gz files '
-        'of every listed format, lazy and eager. non-trivial = more than one chunk delivered')
+        'of every listed format (identifier columns of very different widths, many-digit floats, 10/11-digit coordinates), lazy and '
+        'eager; the stream is also consumed in two steps (loop left with break, then the rest of the same stream object) and its '
+        'chunks are also joined with np.concatenate before being looked at - every variant must give the whole-file entries. '
+        'non-trivial = more than one chunk delivered')
 EXHAUSTIVE = {'quick': False, 'thorough': False}
 TIE = 'translator+correspondence (Gen/C01.v regenerated from parser.py, one_line_buffer.py, fastq_buffer.py, delimited_buffers.py, npdataclassreader.py; Bridge/C01.v; reader state machine + cut functions evaluated in Coq on the same bytes and chunk size)'
 ASSUMPTIONS = ['A-IO: read(n) on a regular file / BytesIO / GzipFile returns fewer than n bytes only at end of file',
@@ -205,6 +208,36 @@ def observe(case):
             out['nchunks'] = nchunks
         except BaseException as e:
             out['chunked_error'] = type(e).__name__ + ':' + str(e)[:100]
+        if 'chunked' in out:
+            # the same stream consumed in other ways must give the same entries: (a) in two steps (a loop left with
+            # `break`, then the rest of the SAME stream object), (b) chunks joined with np.concatenate before anything
+            # of them was looked at.  The first variant that differs from the plain chunk-by-chunk result is what goes
+            # to the comparison with the whole-file read.
+            variants = {}
+            try:
+                stream = bnp.open(path, lazy=case['lazy']).read_chunks(min_chunk_size=case['k'])
+                two = []
+                stop_after = 1 + case['k'] % 2
+                for j, chunk in enumerate(stream):
+                    two += _ser(chunk)
+                    if j + 1 == stop_after:
+                        break
+                for chunk in stream:
+                    two += _ser(chunk)
+                variants['two_step'] = two
+            except BaseException as e:
+                variants['two_step'] = ['<two-step iteration raised %s>' % type(e).__name__]
+            try:
+                chunks = list(bnp.open(path, lazy=case['lazy']).read_chunks(min_chunk_size=case['k']))
+                if chunks:
+                    variants['joined'] = _ser(np.concatenate(chunks))
+            except BaseException as e:
+                variants['joined'] = ['<np.concatenate(chunks) raised %s>' % type(e).__name__]
+            for name, v in variants.items():
+                if v != out['chunked']:
+                    out['variant'] = name
+                    out['chunked'] = v
+                    break
         return out
     finally:
         shutil.rmtree(d, ignore_errors=True)
@@ -236,7 +269,7 @@ def describe(case, o):
         return dict(kind='reader', fmt=case['fmt'], file=bytes.fromhex(case['data']).decode('latin1'), k=case['k'], mode=case['mode'],
                     chunk_sizes=[len(c) // 2 for c in o.get('chunks', [])], error=o.get('error', o.get('format_error')))
     return dict(kind='e2e', fmt=case['fmt'], n_records=case['n'], k=case['k'], gz=case['gz'], lazy=case['lazy'],
-                n_chunks=o.get('nchunks'), errors=[o.get('whole_error'), o.get('chunked_error')])
+                n_chunks=o.get('nchunks'), errors=[o.get('whole_error'), o.get('chunked_error')], differing_variant=o.get('variant'))
 
 
 def distribution(cases, obs):
